@@ -165,6 +165,63 @@ def run(chk):
                           dict(replay, model=ml, model_out=rm), no_input=True)
     chk.sample({"trace": reqs[0], "expected": bookkeeping_oracle(traces[0][0], traces[0][1], consts)[0][:6]})
 
+    # ------------------------------------------------------------------ (C) the size model: one value at a time
+    # accounted(`let x = V;`) - accounted(`let x = 0;`) + size_of(XValue) is what the runtime recorded for V (and its parts)
+    vcases = []   # (label, xray expr, model lines [(kind, args)], extra parts, payload bytes demanded by the property)
+    for k in ([63, 64, 65, 100, 127, 128, 129, 640, 1000, 4096] + [rng.randint(64, 3000) for _ in range(10 if quick else 200)]):
+        for sgn in ("", "-"):
+            mag = 2 ** k + (1 if sgn else 0)       # -(2**63) is Short, -(2**63+1) is Long
+            if sgn == "" and mag < 2 ** 63 or sgn == "-" and mag <= 2 ** 63:
+                shape = ("intShort", [])
+                payload = 0
+            else:
+                d = (mag.bit_length() + 63) // 64
+                shape = ("intLong", [d])
+                payload = d * 8
+            vcases.append((f"int:{sgn}2^{k}", f"{sgn}(2**{k}{' + 1' if sgn else ''})" if sgn else f"2**{k}", [shape], payload))
+    for n in ([0, 1, 3, 100, 1000] + [rng.randint(0, 500) for _ in range(8 if quick else 100)]):
+        vcases.append((f"str:ascii:{n}", f"'a' * {n}" if n != 1 else "'a'", [("string", [n, 0])], n))
+        if n:
+            vcases.append((f"str:2byte:{n}", f"'é' * {n}" if n != 1 else "'é'", [("string", [2 * n, n])], 2 * n))
+    for n in [0, 1, 2, 3, 5, 9]:
+        if n == 0:
+            continue
+        tup = "(" + ", ".join(str(i) for i in range(n)) + ("," if n == 1 else "") + ")"
+        if n == 1:
+            continue
+        vcases.append((f"tuple:{n}", tup, [("struct", [n])] + [("intShort", [])] * n, n * consts["usize"]))
+    vcases.append(("closure:1", "(i: int) -> {i}", [("fn", [1])], consts["usize"]))
+    vcases.append(("float", "1.5", [("float", [])], 0))
+    vcases.append(("bool", "true", [("bool", [])], 0))
+    vreqs = [{"op": "run", "src": f"let x = {e};", "get": [], "limits": {"size": HUGE}} for _, e, _, _ in vcases]
+    base_r = run_harness([{"op": "run", "src": "let x = 0;", "get": [], "limits": {"size": HUGE}}])[0]
+    vres = run_harness(vreqs)
+    vlines, vidx = [], []
+    for i, (_, _, shapes, _) in enumerate(vcases):
+        for kind, args in shapes:
+            vlines.append((f"alloc size {cs} {kind} " + " ".join(map(str, args))).strip())
+            vidx.append(i)
+    vmod = run_model(vlines)
+    pred = {}
+    for i, out in zip(vidx, vmod):
+        pred[i] = pred.get(i, 0) + int(out.split()[0])
+    for i, ((label, e, shapes, payload), r) in enumerate(zip(vcases, vres)):
+        chk.evaluations += 1
+        chk.count("value:" + label.split(":")[0])
+        replay = {"op": "run", "src": f"let x = {e};", "get": [], "limits": {"size": HUGE}}
+        if _fail(r) or r.get("inst") != "ok" or _fail(base_r):
+            chk.violation(f"value:{label.split(':')[0]}:run", f"`let x = {e};` does not run: {_fail(r) or r.get('inst')}", dict(replay, got=r))
+            continue
+        recorded = r["size1"] - base_r["size1"] + consts["xvalue"]
+        if recorded < payload:
+            chk.violation(f"value:{label.split(':')[0]}:under-accounted", f"`let x = {e};` accounts {recorded} bytes for a value whose payload is {payload} bytes",
+                          dict(replay, got=r, recorded=recorded, payload=payload))
+        elif recorded != pred[i]:
+            chk.violation(f"tie:alloc:size:{label.split(':')[0]}", f"`let x = {e};`: the runtime records {recorded} bytes, the size model says {pred[i]} "
+                          f"(the value is accounted for at least its payload of {payload} bytes)", dict(replay, recorded=recorded, model=pred[i]), no_input=True)
+        if payload:
+            chk.nontrivial.add(("value", label))
+
     # ------------------------------------------------------------------ (B) programs under a sweep of the limit
     lib = run_harness([{"op": "run", "src": "", "get": [], "limits": {"size": HUGE}}])[0]
     lib_base = lib.get("size1", 0)
